@@ -220,7 +220,7 @@ impl<'a> G<'a> {
         let mut size = in_size;
         for _ in 0..n {
             let fan = self.cfg.focus == Focus::Fan && size <= 300 && self.rng.chance(1, 3);
-            let join_focus = !iterate && self.cfg.focus == Focus::Join && size <= 40 && self.rng.chance(1, 3);
+            let join_focus = !iterate && matches!(self.cfg.focus, Focus::Join | Focus::Loops) && size <= 40 && self.rng.chance(1, 3);
             let op = match if fan { 11 } else if join_focus { 100 } else { self.rng.below(12) } {
                 100 => self.split_join(),
                 0 | 1 => UOp::Map { mul: self.rng.range(-2, 3), add: self.rng.range(-5, 5) },
@@ -244,7 +244,8 @@ impl<'a> G<'a> {
             if matches!(op, UOp::Replay { .. }) && rep != Rep::Unlimited {
                 ops.push(UOp::Shuffle);
             }
-            if fan && matches!(op, UOp::SplitZip { .. }) {
+            if (fan && matches!(op, UOp::SplitZip { .. })) || (join_focus && self.rng.chance(1, 2)) {
+                // a state-dependent map first: sizes / keys then change from round to round
                 ops.push(UOp::MapState);
             }
             match &op {
